@@ -355,3 +355,7 @@ def run(ctx):
                          "argument bytes, in two setting orders, plus random configurations (random programs, execute lists, flag vectors, text); expected entries computed by TLC; each "
                          "generated profile must be produced, parse, decode, contain no empty block, be a sentence of the language and state the entries; distinct = (configuration, order)")
     ctx.exhaustive = not q
+    # history freedom of the functions of their input behind this property (Pure.tla)
+    from vt.checks import xpure
+
+    xpure.pure_part(ctx, xpure.entries_for("C13"))
